@@ -141,7 +141,9 @@ def case_st(draw):
                     o[dd] = draw(gen.related_labels(dlabels[dd], core.label_kind(dlabels[dd]), relation=draw(st.sampled_from(["permuted", "overlapping", "subset"]))))[1]
             others.append(o)
         p = {"others": others, "align": align, "keys": draw(st.sampled_from([None, "str"])), "sort": draw(st.booleans()) if align else False}
-    return {"op": op, "ds": spec, "dsdims": dsdims, "dim": d, "p": p}
+    pre = draw(st.sampled_from(["none", "none", "warm", "derive-take", "derive-reindex", "derive-take", "derive-sort"]))
+    perm = list(draw(st.permutations(list(range(len(labs))))))
+    return {"op": op, "ds": spec, "dsdims": dsdims, "dim": d, "p": p, "pre": pre, "perm": perm}
 
 
 def strategy(tier):
@@ -221,7 +223,36 @@ def run_case(case):
     da = core.env.import_dimarray()
     op, d, p = case["op"], case["dim"], case["p"]
     ds = core.build_dataset(case["ds"])
+    pre = case.get("pre", "none")
+    if op in ("stack_ds", "concatenate_ds") and pre.startswith("derive"):
+        pre = "warm"        # the other datasets of a join are built from the original label order
+    if pre != "none" and d in ds.dims:
+        # a history on the dataset itself: queries that fill caches, optionally followed by a dataset-level take_axis /
+        # reindex_axis onto the same labels in their stored order (an identity as far as values, labels and dims go)
+        for ax in ds.axes:
+            core.warm(da.DimArray(np.zeros(ax.size), axes=[ax]), da)      # queries on the dataset's own Axis objects
+        # ... optionally followed by a dataset-level operation that reorders the axis; the dataset under test is then the
+        # *result* of that operation (the per-variable expectation is computed on freshly rebuilt copies of its variables)
+        perm = [i for i in case.get("perm", []) if i < ds.axes[d].size] or list(range(ds.axes[d].size))
+        if pre == "derive-take":
+            ds = lib(lambda: ds.take_axis(list(perm), axis=d, indexing="position"), what="pre-history take_axis(permutation)", sig={"op": "pre"})
+        elif pre == "derive-reindex":
+            ds = lib(lambda: ds.reindex_axis(ds.axes[d].values[perm].copy(), axis=d), what="pre-history reindex_axis(permuted own labels)", sig={"op": "pre"})
+        elif pre == "derive-sort":
+            ds = lib(lambda: ds.sort_axis(axis=d), what="pre-history sort_axis", sig={"op": "pre"})
     snap = core.snapshot_dataset(ds)
+
+    class _Fresh(object):
+        """per-variable operand rebuilt from values, labels, dims and attrs: the oracle must not share cached state
+        with the dataset under test"""
+        def __getitem__(self, k):
+            v = ds[k]
+            t = da.DimArray(np.array(v.values, copy=True), axes=[da.Axis(ax.values.copy(), ax.name) for ax in v.axes])
+            t.attrs.update(v.attrs)
+            for ax_t, ax_v in zip(t.axes, v.axes):
+                ax_t.attrs.update(ax_v.attrs)
+            return t
+    fresh = _Fresh()
     dsdims = list(ds.dims)
     keys = list(ds.keys())
     has = [k for k in keys if d in ds[k].dims]
@@ -245,7 +276,7 @@ def run_case(case):
         expected = []
         for k in keys:
             sub = {dd: i for dd, i in idx.items() if dd in ds[k].dims}
-            expected.append((k, lib(lambda: ds[k].take(dict(sub), indexing=indexing, **kw) if sub or True else ds[k], what="per-variable " + what, sig=sig)))
+            expected.append((k, lib(lambda: fresh[k].take(dict(sub), indexing=indexing, **kw) if sub or True else ds[k], what="per-variable " + what, sig=sig)))
         res = lib(call, what=what, sig=sig)
         check_result(res, expected, what, sig, ds_attrs=DS_ATTRS)
         nontrivial = len(keys) >= 2 and any(any(dd not in ds[k].dims for dd in idx) for k in keys)
@@ -253,15 +284,15 @@ def run_case(case):
             cl.add("var-lacks-dim")
     elif op == "reduce":
         kw = {"skipna": True} if p["skipna"] else {}
-        expected = [(k, lib(lambda: getattr(ds[k], p["f"])(axis=d, **kw), what="per-variable " + what, sig=sig) if k in has else ds[k]) for k in keys]
+        expected = [(k, lib(lambda: getattr(fresh[k], p["f"])(axis=d, **kw), what="per-variable " + what, sig=sig) if k in has else ds[k]) for k in keys]
         res = lib(lambda: getattr(ds, p["f"])(axis=axis_arg, **kw), what=what, sig=sig)
         check_result(res, expected, what, sig)
     elif op == "take_axis":
-        expected = [(k, lib(lambda: ds[k].take_axis(list(p["indices"]), axis=d, indexing=p["indexing"]), what="per-variable " + what, sig=sig) if k in has else ds[k]) for k in keys]
+        expected = [(k, lib(lambda: fresh[k].take_axis(list(p["indices"]), axis=d, indexing=p["indexing"]), what="per-variable " + what, sig=sig) if k in has else ds[k]) for k in keys]
         res = lib(lambda: ds.take_axis(list(p["indices"]), axis=axis_arg, indexing=p["indexing"]), what=what, sig=sig)
         check_result(res, expected, what, sig, ds_attrs=DS_ATTRS)
     elif op == "sort_axis":
-        expected = [(k, lib(lambda: ds[k].sort_axis(axis=d), what="per-variable " + what, sig=sig) if k in has else ds[k]) for k in keys]
+        expected = [(k, lib(lambda: fresh[k].sort_axis(axis=d), what="per-variable " + what, sig=sig) if k in has else ds[k]) for k in keys]
         res = lib(lambda: ds.sort_axis(axis=axis_arg), what=what, sig=sig)
         check_result(res, expected, what, sig, ds_attrs=DS_ATTRS)
     elif op == "reindex_axis":
@@ -282,14 +313,14 @@ def run_case(case):
         else:
             if p["raise_error"]:
                 kw["raise_error"] = True
-            expected = [(k, lib(lambda: ds[k].reindex_axis(newobj(), axis=d, **kw), what="per-variable " + what, sig=sig) if k in has else ds[k]) for k in keys]
+            expected = [(k, lib(lambda: fresh[k].reindex_axis(newobj(), axis=d, **kw), what="per-variable " + what, sig=sig) if k in has else ds[k]) for k in keys]
             res = lib(lambda: ds.reindex_axis(newobj(), axis=axis_arg, **kw), what=what, sig=sig)
             check_result(res, expected, what, sig, ds_attrs=DS_ATTRS)
             check(core.same_labels(res.axes[d].values, new), "dataset-axis", {"what": what, "got": core.jsonable(res.axes[d].values), "expected": new}, sig)
     elif op == "reindex_like":
         tl = p["template"]
         t = da.Axes([da.Axis(core.label_array(l), dd) for dd, l in tl.items()])
-        expected = [(k, lib(lambda: ds[k].reindex_like(t), what="per-variable " + what, sig=sig)) for k in keys]
+        expected = [(k, lib(lambda: fresh[k].reindex_like(t), what="per-variable " + what, sig=sig)) for k in keys]
         res = lib(lambda: ds.reindex_like(t), what=what, sig=sig)
         check_result(res, expected, what, sig)
         nontrivial = len(keys) >= 2 and any(any(dd not in ds[k].dims for dd in tl) for k in keys)
@@ -304,12 +335,12 @@ def run_case(case):
         if any(x < min(labs) or x > max(labs) for x in new):
             cl.add("interp:outside")
         if op == "interp_axis":
-            expected = [(k, lib(lambda: ds[k].interp_axis(list(new), axis=d, **kw), what="per-variable " + what, sig=sig) if k in has else ds[k]) for k in keys]
+            expected = [(k, lib(lambda: fresh[k].interp_axis(list(new), axis=d, **kw), what="per-variable " + what, sig=sig) if k in has else ds[k]) for k in keys]
             res = lib(lambda: ds.interp_axis(list(new), axis=axis_arg, **kw), what=what, sig=sig)
             check_result(res, expected, what, sig, ds_attrs=DS_ATTRS)
         else:
             t = da.Axes([da.Axis(np.array(new, dtype=float), d)])
-            expected = [(k, lib(lambda: ds[k].interp_like(t, **kw), what="per-variable " + what, sig=sig)) for k in keys]
+            expected = [(k, lib(lambda: fresh[k].interp_like(t, **kw), what="per-variable " + what, sig=sig)) for k in keys]
             res = lib(lambda: ds.interp_like(t, **kw), what=what, sig=sig)
             check_result(res, expected, what, sig)
         if d in res.dims:
@@ -318,13 +349,13 @@ def run_case(case):
         import operator
         f = {"+": operator.add, "-": operator.sub, "*": operator.mul, "/": operator.truediv}.get(p.get("sym"))
         if op == "neg":
-            expected = [(k, -ds[k]) for k in keys]
+            expected = [(k, -fresh[k]) for k in keys]
             res = lib(lambda: -ds, what=what, sig=sig)
         elif op == "ds-scalar":
-            expected = [(k, f(ds[k], p["s"])) for k in keys]
+            expected = [(k, f(fresh[k], p["s"])) for k in keys]
             res = lib(lambda: f(ds, p["s"]), what=what, sig=sig)
         else:
-            expected = [(k, f(p["s"], ds[k])) for k in keys]
+            expected = [(k, f(p["s"], fresh[k])) for k in keys]
             res = lib(lambda: f(p["s"], ds), what=what, sig=sig)
         check_result(res, expected, what, sig, attrs=False)
         nontrivial = len(keys) >= 2
@@ -333,7 +364,7 @@ def run_case(case):
         f = {"+": operator.add, "-": operator.sub, "*": operator.mul}[p["sym"]]
         ds2 = core.build_dataset(relabel(case["ds"], p["other_labels"]))
         snap2 = core.snapshot_dataset(ds2)
-        expected = [(k, lib(lambda: f(ds[k], ds2[k]), what="per-variable " + what, sig=sig)) for k in keys]
+        expected = [(k, lib(lambda: f(fresh[k], ds2[k]), what="per-variable " + what, sig=sig)) for k in keys]
         res = lib(lambda: f(ds, ds2), what=what, sig=sig)
         check_result(res, expected, what, sig, attrs=False)
         check(core.snapshot_dataset(ds2) == snap2, "operand-modified", {"what": what + " [second dataset]"}, sig)
